@@ -53,4 +53,51 @@ theorem exGood : ∀ i, i < exRs.size → 0 ≤ (yAxis exRs 0 0).sz i ∧ (yAxis
 theorem exMeet : ScanMeet (yAxis exRs 0 0) 0 1 := by
   norm_num [ScanMeet, exOpn0, exOpn1, exCls0, exCls1]
 
+/-! x sweep of the same two squares -/
+theorem exXCtr0 : (xAxis exRs 0 0).ctr 0 = 1 := by
+  norm_num [xAxis, ex0, Rect.centreX, Rect.width, Rect.getMinX, Rect.getMaxX]
+theorem exXCtr1 : (xAxis exRs 0 0).ctr 1 = 2 := by
+  norm_num [xAxis, ex1, Rect.centreX, Rect.width, Rect.getMinX, Rect.getMaxX]
+theorem exXSz0 : (xAxis exRs 0 0).sz 0 = 2 := by norm_num [xAxis, ex0, Rect.width, Rect.getMinX, Rect.getMaxX]
+theorem exXSz1 : (xAxis exRs 0 0).sz 1 = 2 := by norm_num [xAxis, ex1, Rect.width, Rect.getMinX, Rect.getMaxX]
+theorem exXOpn0 : (xAxis exRs 0 0).opn 0 = 0 := by norm_num [xAxis, ex0, Rect.getMinY]
+theorem exXOpn1 : (xAxis exRs 0 0).opn 1 = 1 := by norm_num [xAxis, ex1, Rect.getMinY]
+theorem exXCls0 : (xAxis exRs 0 0).cls 0 = 2 := by norm_num [xAxis, ex0, Rect.getMaxY]
+theorem exXCls1 : (xAxis exRs 0 0).cls 1 = 3 := by norm_num [xAxis, ex1, Rect.getMaxY]
+theorem exXLt01 : keyLt (xAxis exRs 0 0) id 0 1 = true := by simp [keyLt, exXCtr0, exXCtr1]
+theorem exXLt10 : keyLt (xAxis exRs 0 0) id 1 0 = false := by simp [keyLt, exXCtr0, exXCtr1]
+theorem exXLt00 : keyLt (xAxis exRs 0 0) id 0 0 = false := keyLt_irrefl _ _ _
+theorem exXLt11 : keyLt (xAxis exRs 0 0) id 1 1 = false := keyLt_irrefl _ _ _
+
+theorem exXCons : generateXConstraints exRs 0 0 id exEvs false = [⟨0, 1, 2⟩] := by
+  simp [generateXConstraints, exEvs, scanPtr, insertSorted, prevIn, nextIn, before, after, List.filter,
+    exXLt01, exXLt10, exXLt00, exXLt11, PMap.set, gapOf, exXSz0, exXSz1]
+
+theorem exXSat : Sat exY (generateXConstraints exRs 0 0 id exEvs false) := by
+  rw [exXCons]; intro c hc; simp at hc; subst hc; norm_num [exY]
+
+theorem exXValid : ValidOrder (xAxis exRs 0 0) exRs.size exEvs := by
+  refine ⟨?_, by decide, ?_⟩
+  · simp [exEvs, evLe, Ev.pos, exXOpn0, exXOpn1, exXCls0, exXCls1]; norm_num
+  · rintro ⟨c, i⟩
+    cases c <;> simp [exEvs, exRs] <;> omega
+
+theorem exXGood : ∀ i, i < exRs.size → 0 ≤ (xAxis exRs 0 0).sz i ∧ (xAxis exRs 0 0).opn i ≤ (xAxis exRs 0 0).cls i := by
+  intro i hi
+  have : i = 0 ∨ i = 1 := by simp [exRs] at hi; omega
+  rcases this with rfl | rfl
+  · norm_num [exXSz0, exXOpn0, exXCls0]
+  · norm_num [exXSz1, exXOpn1, exXCls1]
+
+theorem exXMeet : ScanMeet (xAxis exRs 0 0) 0 1 := by
+  norm_num [ScanMeet, exXOpn0, exXOpn1, exXCls0, exXCls1]
+
+/-- the separation certificate for the y sweep of the example: ordering witness = index,
+    reachability bit sets {1} for node 0 and {} for node 1 -/
+theorem exCert : sepCert (yAxis exRs 0 0) 2 [⟨0, 1, 2⟩] id #[2, 0] = true := by
+  have h1 : (List.range 2) = [0, 1] := rfl
+  simp [sepCert, acyclicBy, gapsCover, reachOK, pairsChained, succUnion, maskAt, scanMeet, h1,
+    exSz0, exSz1, exOpn0, exOpn1, exCls0, exCls1]
+  decide
+
 end AdaptaVerif.Lemmas.Scanline.Example
